@@ -382,7 +382,7 @@ func (eng *Engine) bodyPure(fi *FuncInfo) bool {
 			case *types.Func:
 				if o.Pkg() != nil {
 					switch o.Pkg().Path() {
-					case "math", "math/bits", "strconv", "unicode", "unicode/utf8", "strings", "fmt", "sort":
+					case "math", "math/bits", "strconv", "unicode", "unicode/utf8", "strings", "fmt", "sort", "image/color":
 						if o.Pkg().Path() == "sort" {
 							pure = false
 						}
@@ -397,6 +397,11 @@ func (eng *Engine) bodyPure(fi *FuncInfo) bool {
 				}
 				c := eng.funcs[o.Origin()]
 				if c == nil || !c.pure {
+					pure = false
+				}
+			case *types.Var:
+				// a closure bound to a local variable of this function: its literal body is part of the inspected body
+				if !(o.Pos() >= fi.Decl.Body.Pos() && o.Pos() <= fi.Decl.Body.End()) {
 					pure = false
 				}
 			default:
